@@ -72,19 +72,33 @@ package binding
 //@   ensures pod.Name == old(pod.Name) && pod.Namespace == old(pod.Namespace) && pod.UID == old(pod.UID)
 //@ end
 
+// C11: "... the attempt's side effects removed or removable by the next sync": Rollback removes the GPU-group labels
+// found on the in-memory pod, so after a successful reservation that pod carries the label of EVERY selected group
+// (runai-gpu-group for a single-fraction pod, runai-gpu-group/<group> for a multi-fraction pod) and agrees with the store.
 //@ func (*Binder).reserveGPUs
 //@   props C11 C17
 //@   requires b != nil && b.resourceReservationService != nil && pod != nil && bindRequest != nil
-//@   modifies fields(pod), family(rr.gone(nil))
+// a decoded pod never shares one map object between its labels and its annotations
+//@   requires pod.Labels == nil || pod.Labels != pod.Annotations
+//@   modifies pod.Labels, pod.Labels[*], pod.ResourceVersion, rr.podRev(pod), family(rr.gone(nil))
 //@   loop 1
 //@     invariant 0 - 1 <= rangeindex && rangeindex < len(bindRequest.Spec.SelectedGPUGroups)
 //@     invariant len(gpuIndexes) == rangeindex + 1
-//@     invariant pod.Name == old(pod.Name) && pod.Namespace == old(pod.Namespace) && pod.UID == old(pod.UID)
+//@     invariant forall k string :: old(k in pod.Labels) ==> (k in pod.Labels)
+//@     invariant pod.Labels == old(pod.Labels) || fresh(pod.Labels)
+//@     invariant forall k string :: pod.Annotations[k] == old(pod.Annotations[k]) && (k in pod.Annotations) == old(k in pod.Annotations)
+//@     invariant old(rr.singleFraction(pod)) && rangeindex >= 0 ==> ("runai-gpu-group" in pod.Labels)
+//@     invariant old(rr.multiFraction(pod)) ==> (forall i int :: 0 <= i && i <= rangeindex ==> (rr.multiKey(bindRequest.Spec.SelectedGPUGroups[i]) in pod.Labels))
+//@     invariant rangeindex >= 0 ==> (forall k string :: rr.labelStored(pod, k) == pod.Labels[k])
 //@     decreases len(bindRequest.Spec.SelectedGPUGroups) - rangeindex
-//@   ensures pod.Name == old(pod.Name) && pod.Namespace == old(pod.Namespace) && pod.UID == old(pod.UID)
 // C17: "every pod bound into the group is given that reservation pod's device index": one index per selected group
 //@   ensures [one-index-per-selected-group] result1 == nil ==> len(result0) == len(bindRequest.Spec.SelectedGPUGroups) && len(result0) > 0
 //@   ensures result1 != nil ==> len(result0) == 0
+//@   ensures [single-fraction-pod-labelled-in-memory] result1 == nil && old(rr.singleFraction(pod)) ==> ("runai-gpu-group" in pod.Labels)
+//@   ensures [every-selected-group-labelled-in-memory] result1 == nil && old(rr.multiFraction(pod)) ==> (forall i int :: 0 <= i && i < len(bindRequest.Spec.SelectedGPUGroups) ==> (rr.multiKey(bindRequest.Spec.SelectedGPUGroups[i]) in pod.Labels))
+//@   ensures [labels-map-kept-or-new] pod.Labels == old(pod.Labels) || fresh(pod.Labels)
+//@   ensures [stored-labels-are-the-in-memory-labels] result1 == nil ==> forall k string :: rr.labelStored(pod, k) == pod.Labels[k]
+//@   ensures [in-memory-labels-only-grow] forall k string :: old(k in pod.Labels) ==> (k in pod.Labels)
 //@ end
 
 // C11: "the pod ends either bound to exactly the node named in the request ..., or unbound with the request reported
@@ -96,7 +110,9 @@ package binding
 //@   requires b != nil && b.kubeClient != nil && b.resourceReservationService != nil && b.plugins != nil
 //@   requires pod != nil && node != nil && bindRequest != nil
 //@   requires forall i int :: 0 <= i && i < len(b.plugins.plugins) ==> b.plugins.plugins[i] != nil
-//@   modifies boundTo(pod), fields(pod), family(rr.gone(nil)), rr.nodeSyncs()
+// a decoded pod never shares one map object between its labels and its annotations
+//@   requires pod.Labels == nil || pod.Labels != pod.Annotations
+//@   modifies boundTo(pod), fields(pod), pod.Labels[*], rr.podRev(pod), family(rr.gone(nil)), rr.nodeSyncs(), rr.lastNodeSyncSawRemovals()
 // C17: every bind attempt starts with a sync of the selected node's GPU groups
 //@   ensures [bind-starts-with-node-sync] rr.nodeSyncs() == old(rr.nodeSyncs()) + 1
 //@   ensures [success-means-bound-to-the-given-node] result == nil ==> boundTo(pod) == node.Name
@@ -116,13 +132,23 @@ package binding
 // next sync". Rollback never touches the binding (boundTo is not in its frame) and attempts EVERY compensation step
 // even when an earlier one failed: plugin rollbacks always; for shared-GPU requests also the removal of the pod's
 // GPU-group labels and the node-wide reservation sync.
+// The labels REMOVED from the store are exactly the group labels of the in-memory pod Rollback was given (that is all
+// RemovePodGpuGroupsConnection can see): together with reserveGPUs' "every stored group label is on the in-memory
+// pod" this is "the attempt's side effects removed"; a label stored but absent from memory survives the rollback.
+// C17: "a reservation pod exists if and only if at least one live pod still carries that group ... after ... bind
+// failures ... and the sync that follows them": the node sync of a rollback runs AFTER the label removal (a sync
+// that runs before it still sees the labelled Pending consumer and keeps the reservation pod).
 //@ func (*Binder).Rollback
-//@   props C11
+//@   props C11 C17
 //@   requires b != nil && b.resourceReservationService != nil && b.plugins != nil
 //@   requires pod != nil && node != nil && bindRequest != nil
-//@   modifies fields(pod), family(rr.gone(nil)), rr.nodeSyncs(), rr.labelRemovals(), bp.pluginRollbacks()
+//@   modifies fields(pod), family(rr.gone(nil)), rr.nodeSyncs(), rr.labelRemovals(), rr.lastNodeSyncSawRemovals(), rr.podRev(pod), bp.pluginRollbacks()
 //@   requires forall i int :: 0 <= i && i < len(b.plugins.plugins) ==> b.plugins.plugins[i] != nil
 //@   ensures [plugins-rolled-back] bp.pluginRollbacks() == old(bp.pluginRollbacks()) + len(b.plugins.plugins)
 //@   ensures [shared-gpu-labels-removed-and-node-synced] bindRequest.Spec.ReceivedResourceType == "Fraction" ==> rr.labelRemovals() == old(rr.labelRemovals()) + 1 && rr.nodeSyncs() == old(rr.nodeSyncs()) + 1
 //@   ensures [whole-gpu-nothing-else] bindRequest.Spec.ReceivedResourceType != "Fraction" ==> rr.labelRemovals() == old(rr.labelRemovals()) && rr.nodeSyncs() == old(rr.nodeSyncs())
+//@   ensures [sync-after-label-removal] bindRequest.Spec.ReceivedResourceType == "Fraction" ==> rr.lastNodeSyncSawRemovals() == rr.labelRemovals()
+//@   ensures [in-memory-group-label-removed-from-store] result == nil && bindRequest.Spec.ReceivedResourceType == "Fraction" && old("runai-gpu-group" in pod.Labels) ==> rr.labelStored(pod, "runai-gpu-group") == ""
+//@   ensures [in-memory-multi-group-labels-removed-from-store] result == nil && bindRequest.Spec.ReceivedResourceType == "Fraction" ==> (forall g string :: old(rr.multiKey(g) in pod.Labels) ==> rr.labelStored(pod, rr.multiKey(g)) == "")
+//@   ensures [only-in-memory-labels-removed] forall k string :: !old(k in pod.Labels) ==> rr.labelStored(pod, k) == old(rr.labelStored(pod, k))
 //@ end
